@@ -555,6 +555,13 @@ func recordRegion(args []string) {
 		}
 	}
 	gen(nil, 3)
+	// keys with the extreme bytes right behind a possible prefix or bound: p+0xFF, p+0xFF+'z', p+0x00 (a key is any byte
+	// string; "the end of a prefix" computed as p+0xFF or p+1 goes wrong exactly here)
+	for _, w := range []string{"", "a", "b", "c", "A", "aa", "ab", "ba", "bb", "ca", "Ab"} {
+		for _, suf := range []string{"\xff", "\xffz", "\x00", "\xff\xff"} {
+			universe = append(universe, []byte(w+suf))
+		}
+	}
 	for i := 0; i < c.n; i++ {
 		r := caseRand(c.shard, i)
 		e := randRegionTree(r, 1+r.Intn(6))
